@@ -32,6 +32,12 @@ class Point:
     self.x = x
     self.a_late = (x, "late")
 
+  def __setattr__(self, name, value):
+    # attribute assignment has a visible effect (a counter kept as an ordinary attribute): a load that restores
+    # the saved state must not run it - the reconstruction must carry the counter that was saved
+    object.__setattr__(self, "sets", self.__dict__.get("sets", 0) + 1)
+    object.__setattr__(self, name, value)
+
 
 Point.__module__ = "harness.c09"
 serialization.register_dict_based_object(Point)
@@ -199,7 +205,7 @@ def deep_canon(root, intern_tuples=False):
     if isinstance(x, (list, tuple)):
       return (type(x).__name__, n, tuple(go(v) for v in x))
     if isinstance(x, Point):
-      return ("Point", n, go(x.x), go(x.y))
+      return ("Point", n, go(x.x), go(x.y), x.__dict__.get("sets"))
     return ("opaque", n, type(x).__name__)
 
   return go(root)
